@@ -471,8 +471,11 @@ class Ellipse:
         first_isophote = isophote_list[0]
         sma, step = first_isophote.sample.geometry.reset_sma(step)
 
-        # now, go from initial sma inwards towards center.
-        while True:
+        # now, go from initial sma inwards towards center. The sma is
+        # tested before each fit (including the first one), so that no
+        # isophote is fitted at or below the user-defined minimum (or
+        # at a too small) sma.
+        while sma > max(minsma, 0.5):
             isophote = self.fit_isophote(sma, step, conver, minit, maxit,
                                          fflag, maxgerr, sclip, nclip,
                                          integrmode, linear, maxrit,
@@ -493,11 +496,8 @@ class Ellipse:
             # `isophote` instance may no longer be OK.
             isophote = isophote_list[-1]
 
-            # figure out next sma; if exceeded user-defined
-            # minimum, or too small, bail out from this loop
+            # figure out next sma
             sma = isophote.sample.geometry.update_sma(step)
-            if sma <= max(minsma, 0.5):
-                break
 
         # if user asked for minsma=0, extract special isophote there
         if minsma == 0.0:
